@@ -171,6 +171,7 @@ package auth
 // Summaries without postconditions keep NewAuthenticatorMux's paths few; they claim nothing.
 //@ func NewAuthenticator(config Configuration, optionFuncs ...func(*Authenticator) error) (*Authenticator, error)
 //@   modifies everything
+//@   sink [C08] gates_are_built_over_the_configured_proxy_credentials: newMux requires $arg0.ProxyClientID == old(config.ClientConfigs["proxy"].ID) && $arg0.ProxyClientSecret == old(config.ClientConfigs["proxy"].Secret)
 //@ func newProvider(pc ProviderConfig, sc SessionConfig) (providers.Provider, error)
 //@   modifies everything
 //@ func loadFSHandler() (http.Handler, error)
@@ -184,3 +185,29 @@ package auth
 //@   let D = config.AuthorizeConfig.EmailConfig.Domains
 //@   sink [C09 C11] email_rule_built_from_the_configuration: UseEncodedPath requires len(v) == 1 && (len(A) != 0 ==> typeis(v[0], "pkg/validators.EmailAddressValidator") && called(@NewEmailAddressValidator#1) && arrof(arg(@NewEmailAddressValidator#1, 0)) == arrof(A) && len(arg(@NewEmailAddressValidator#1, 0)) == len(A)) && (len(A) == 0 ==> typeis(v[0], "pkg/validators.EmailDomainValidator") && called(@NewEmailDomainValidator#1) && arrof(arg(@NewEmailDomainValidator#1, 0)) == arrof(D) && len(arg(@NewEmailDomainValidator#1, 0)) == len(D))
 //@   sink [C09 C11] authenticators_get_that_rule_and_nothing_else: SetValidators requires arrof($arg0) == arrof(v) && len($arg0) == len(v) && len(v) == 1
+
+// ---- C08: there always is a configured proxy client --------------------------------------------------------------
+// The defaults carry an (empty) "proxy" client entry, so that validation insists on its id and secret being
+// supplied; a configuration passes validation only if every client entry has both. (Assumed, outside
+// /repo/internal: sso-auth's main validates the loaded configuration before building the mux, and loading only
+// fills in entries.) NewAuthenticator builds the gates over exactly that entry.
+//@ func DefaultAuthConfig() Configuration
+//@   modifies nothing
+//@   ensures [C08] the_proxy_client_entry_exists_and_must_be_filled_in: result.ClientConfigs != nil && ("proxy" in result.ClientConfigs) && result.ClientConfigs["proxy"].ID == "" && result.ClientConfigs["proxy"].Secret == ""
+
+//@ func (cc ClientConfig) Validate() error
+//@   modifies nothing
+//@   ensures [C08] valid_means_id_and_secret_present: result == nil <==> cc.ID != "" && cc.Secret != ""
+
+// (summary, assumed: validating a provider block reads its value receiver and changes nothing)
+//@ func (pc ProviderConfig) Validate() error
+//@   trusted
+//@   modifies nothing
+
+//@ func (c Configuration) Validate() error
+//@   modifies everything
+//@   ensures [C08] a_valid_configuration_has_every_client_entry_filled_in: result == nil ==> forall k string :: (k in old(c.ClientConfigs)) ==> old(c.ClientConfigs[k].ID) != "" && old(c.ClientConfigs[k].Secret) != ""
+//@   loop 1
+//@     invariant true
+//@   loop 2
+//@     invariant forall k string :: visited(k) ==> (k in old(c.ClientConfigs)) && old(c.ClientConfigs[k].ID) != "" && old(c.ClientConfigs[k].Secret) != ""
